@@ -83,6 +83,10 @@ def check(items, data, events=None, escaped=None):
                     ends |= {s + limit for s in starts}
                     moved = True
                 elif cls == "InputStreamSuperfluousBytesError":
+                    if moved:
+                        P = {max(p, e) for p in P for e in ends}
+                        stats["skips"] += 1
+                        moved = False
                     if j != n - 1:
                         return False, "superfluous warning at %d is not the last event" % j, stats
                     surplus = bytes.fromhex(wi[2])
